@@ -4,4 +4,4 @@ Require Extraction.
 Require Import ExtrOcamlBasic.
 Definition unused_n : N := N.of_nat 0.
 Extraction "model.ml" generic_run poly_run eval_poly hygienic_call declare_all lookup_chain sset sempty expand
-  POLY_COMPARES_COMPTIME_VALUES POP_CHECKPOINT_MERGES HYGIENIZE_ADJUSTS_CALLER h_run h_emit mkH set_saved unused_n.
+  POLY_COMPARES_COMPTIME_VALUES POP_CHECKPOINT_MERGES HYGIENIZE_ADJUSTS_CALLER HYGIENIZE_USES_CURSORS h_run h_emit mkH hc_run hc_emit mkHC set_saved unused_n.
